@@ -53,3 +53,12 @@ $(B)/fz/selftest_url: ref/selftest_url.cpp $(B)/fz/ref_refurl.o $(B)/fz/ada.o | 
 	$(CXX) $(STD) $(FLAGS_fz) $(DEFS) $(INC) $(WARN) $^ -o $@
 $(B)/fz/selftest_idna: ref/selftest_idna.cpp $(B)/fz/ref_refidna.o | $(B)/fz
 	$(CXX) $(STD) $(FLAGS_fz) -Iref $(WARN) $^ -licuuc -o $@
+
+# tsan: free-running thread workload (C13 parts b, c)
+FLAGS_tsan := -O1 -g -fsanitize=thread -DADA_DEVELOPMENT_CHECKS=0
+$(B)/tsan:
+	mkdir -p $@
+$(B)/tsan/ada.o: $(REPO)/src/ada.cpp | $(B)/tsan
+	$(CXX) $(STD) $(FLAGS_tsan) $(DEFS) $(INC) -MMD -MP -c $< -o $@
+$(B)/tsan/C13_tsan: props/C13_tsan.cpp $(B)/tsan/ada.o
+	$(CXX) $(STD) $(FLAGS_tsan) $(DEFS) $(INC) $(WARN) $^ -lpthread -o $@
